@@ -472,6 +472,11 @@ package eval
 //@   inline
 //@   loop 1 (l)
 //@     invariant [top] (= $l (len $operatorStack))
+//@     exit [reduction-stops-only-below-a-looser-operator] (or (= $l 0)
+//@          (let ((top (idx $operatorStack (- $l 1))))
+//@            (or (and (= (fld $car typ) "rParen") (= (fld (fld top t) typ) "lParen"))
+//@                (= (precOf (fld $car val)) 100)
+//@                (> (precOf (fld $car val)) (precOf (fld (fld top t) val))))))
 //@   loop 2 (i)
 //@     invariant [pops-available] (and (>= $i -1) (< $i (len $children)) (>= (len $outputStack) (+ $i 1)))
 //@     invariant [operands-in-source-order] (forall ((k Int)) (! (=> (and (< $i k) (< k (len $children)))
